@@ -266,18 +266,20 @@ class CallTracer:
         # Sampling draws from a generator of its own: the module-level functions of
         # random share one generator with the traced program.
         self._random = random.Random()
-        self.cache: Dict[Tuple[str, CodeType], Optional[Callable[..., Any]]] = {}
+        self.cache: Dict[int, Tuple[CodeType, Optional[Callable[..., Any]]]] = {}
         self.should_trace = code_filter
         self.max_typed_dict_size = max_typed_dict_size
 
     def _get_func(self, frame: FrameType) -> Optional[Callable[..., Any]]:
         code = frame.f_code
-        # Code objects compare equal when they differ only in co_filename, so the
-        # same function text at the same lines of two modules must not share an entry.
-        key = (code.co_filename, code)
+        # Code objects are compared by value: the same function text at the same lines
+        # of two modules, or the generated __init__ of two dataclasses with the same
+        # fields, are equal. An entry is found by the identity of the code object and
+        # keeps it alive, so its id is not reused while the entry exists.
+        key = id(code)
         if key not in self.cache:
-            self.cache[key] = get_func(frame)
-        return self.cache[key]
+            self.cache[key] = (code, get_func(frame))
+        return self.cache[key][1]
 
     def handle_call(self, frame: FrameType) -> None:
         if _is_resumption(frame):
